@@ -110,6 +110,23 @@ class ReGen:
         if self.r.chance(1, 6):
             return self.lit_dot_run()
         if self.r.chance(1, 12):
+            # several bounded dot repeats on one path, the first used to its maximum: /a.{2}b.{3}c/, /x.?y.?z/
+            r = self.r
+
+            def dots():
+                c = r.below(3)
+                if c == 0:
+                    n = r.range(1, 3)
+                    return ("rep", ("any",), n, n, True)
+                if c == 1:
+                    return ("opt", ("any",), True)
+                n = r.below(3)
+                return ("rep", ("any",), n, n + r.range(1, 2), True)
+            e = ("lit", r.choice(b"abc"))
+            for _ in range(r.range(2, 3)):
+                e = ("cat", e, ("cat", dots(), ("lit", r.choice(b"xyz019"))))
+            return e
+        if self.r.chance(1, 12):
             # two literal runs separated by a lazy range of dots with bounds beyond the chaining threshold: the engine may split the
             # string there, the dot still has to refuse newlines without /s
             r = self.r
